@@ -453,6 +453,104 @@ fn check_encoder(rep: &mut Report) {
     rep.sub.push(json!({"sub":"encoder","cases":n,"classes":classes.len()}));
 }
 
+
+// ------------------------------------------------------------------------------------------------
+// 6.4 records towards an HTTP/2 client whose flow-control window is nearly exhausted: a datagram
+// that does not fit is dropped as a whole - what the client reads is a sequence of complete records
+// ------------------------------------------------------------------------------------------------
+
+async fn h2_window_case(window: u32, payload_len: usize, burst: u8) -> Result<&'static str, Violation> {
+    use super::common::{make_world, Cfg};
+    use super::door::{self, H2Client, H2Outcome, ReqSpec};
+    let case = json!({"kind":"h2-window","window":window,"payload_len":payload_len,"burst":burst});
+    let mach = |e: String| Violation::new("C06:machinery", e, json!({}));
+    let mk = |sig: &str, what: String| Violation::new(format!("C06:h2-window:{sig}"), format!("{what}; client stream window {window}, {burst} datagrams of {payload_len} bytes while the client does not read"), case.clone());
+    let world = make_world(&Cfg { allow_private: true, clients: vec![("u".into(), "p".into())], ..Cfg::default() }).map_err(mach)?;
+    let peer_sock = tokio::net::UdpSocket::bind("127.0.0.1:0").await.map_err(|e| mach(e.to_string()))?;
+    let peer_addr = peer_sock.local_addr().unwrap();
+    let client_addr: SocketAddr = "198.51.100.7:40000".parse().unwrap();
+    let (io, d) = door::open(&world.ctx, vh::VProtocol::Http2, "m.t", None, client_addr, 1 << 20);
+    let mut cl = H2Client::connect_with(io, Some(window)).await.map_err(mach)?;
+    let spec = ReqSpec::connect("_udp2").with_auth(Some(b"Basic dTpw".to_vec()));
+    let mut st = cl.request(spec.h2_request().map_err(mach)?, false).await.map_err(mach)?;
+    match st.response(Duration::from_secs(3)).await {
+        H2Outcome::Response(r) if r.status == 200 => {}
+        other => return Err(mach(format!("CONNECT _udp2 answered {other:?}"))),
+    }
+    let src: SocketAddr = "10.1.2.3:5000".parse().unwrap();
+    st.tx.send_data(Bytes::from(build_record(src, peer_addr, b"app", b"hi")), false).map_err(|e| mach(e.to_string()))?;
+    let mut tmp = vec![0u8; 2048];
+    let flow_addr = {
+        let mut r = Box::pin(peer_sock.recv_from(&mut tmp));
+        match door::until(&mut r, Duration::from_secs(3)).await {
+            Some(Ok((_, from))) => from,
+            _ => return Err(mach("the client's datagram did not reach the peer".into())),
+        }
+    };
+    // the burst, while the client reads nothing
+    for k in 1..=burst {
+        let _ = peer_sock.send_to(&vec![k; payload_len], flow_addr).await;
+        tokio::time::sleep(Duration::from_millis(3)).await;
+    }
+    tokio::time::sleep(Duration::from_millis(50)).await;
+    // the client reads what was sent (the window reopens), then one more datagram
+    let mut got = vec![];
+    let (b, _, _) = st.body(200).await;
+    got.extend_from_slice(&b);
+    let last = burst + 1;
+    let _ = peer_sock.send_to(&vec![last; payload_len], flow_addr).await;
+    let rec_len = 4 + 36 + payload_len;
+    let t0 = std::time::Instant::now();
+    while t0.elapsed() < Duration::from_secs(2) {
+        let (b, ended, _) = st.body(50).await;
+        got.extend_from_slice(&b);
+        if ended || (got.len() >= rec_len && got[got.len() - 1] == last && got.len() % rec_len == 0) {
+            break;
+        }
+        tokio::time::sleep(Duration::from_millis(5)).await;
+    }
+    d.task.abort();
+    // every record is the 6.4 encoding of one of the datagrams, whole
+    let mut markers = vec![];
+    let mut off = 0;
+    while off < got.len() {
+        let rest = &got[off..];
+        let marker = rest.get(4 + 36).copied().unwrap_or(0);
+        let expect = vh::udp_encode(peer_addr, src, Bytes::from(vec![marker; payload_len])).map(|b| b.to_vec()).unwrap_or_default();
+        if rest.len() < expect.len() || rest[..expect.len()] != expect[..] || marker == 0 || marker > last {
+            return Err(mk("truncated-or-glued-record", format!("after {} complete record(s) (markers {markers:?}) the client's stream continues with {} bytes that are not a complete 6.4 record (starts {})", markers.len(), rest.len(), hex::encode(&rest[..rest.len().min(12)]))));
+        }
+        markers.push(marker);
+        off += expect.len();
+    }
+    if markers.first() != Some(&1) || markers.last() != Some(&last) || markers.windows(2).any(|w| w[0] >= w[1]) {
+        return Err(mk("records-missing-or-reordered", format!("the client received the datagrams {markers:?}; the first of the burst fits the window and the one sent after the window reopened must arrive")));
+    }
+    Ok(if markers.len() < last as usize { "some-dropped-whole" } else { "all-delivered" })
+}
+
+fn h2_window_into(rep: &mut Report) {
+    let mut classes = std::collections::BTreeSet::new();
+    let mut n = 0u64;
+    for (window, payload_len) in [(1500u32, 1000usize), (1500, 700), (3000, 1000), (70_000, 1000), (600, 1000)] {
+        n += 1;
+        // with a window smaller than one record nothing of the burst fits: skip the "first fits" case
+        if (window as usize) < 4 + 36 + payload_len {
+            continue;
+        }
+        match super::guarded(|| rt::run_real(h2_window_case(window, payload_len, 4))) {
+            Ok(Ok(c)) => {
+                classes.insert(format!("{window}:{payload_len}:{c}"));
+            }
+            Ok(Err(v)) => rep.violation(v),
+            Err(p) => rep.violation(Violation::new("C06:h2-window:panic", p, json!({"kind":"h2-window","window":window,"payload_len":payload_len,"burst":4}))),
+        }
+    }
+    rep.add("evaluations", n);
+    rep.sub.push(json!({"sub":"h2-window-records","scenarios":n,"classes":classes,
+        "what":"_udp2 over HTTP/2 with a client stream window of {1500, 3000, 70000} bytes, a burst of 4 datagrams (700 / 1000 bytes) from a real UDP peer while the client does not read, one more after it has read: the client's stream is a sequence of complete 6.4 records (a datagram that does not fit is dropped whole)"}));
+}
+
 pub fn run(tier: Tier) -> i32 {
     crate::engine::watch::start("C06", tier.name(), Duration::from_secs(20), crate::engine::watch::OnExpiry::Violation);
     let mut rep = Report::new("C06", tier, "exploration");
@@ -488,6 +586,7 @@ pub fn run(tier: Tier) -> i32 {
     rep.sample(json!({"seq":["nonutf8-name","valid-v4"],"cuts":[41, 52]}));
     rep.sample(json!({"seq":["len-0","valid-v6","name0-payload0"],"cuts":"byte-at-a-time"}));
     rep.assume("acceptance bounds between the implementation's limit and 65507 payload bytes are not exercised (the documentation does not fix the limit)");
+    h2_window_into(&mut rep);
     rep.finish()
 }
 
@@ -496,6 +595,7 @@ static RUNS: std::sync::atomic::AtomicU64 = std::sync::atomic::AtomicU64::new(0)
 pub fn replay(case: &serde_json::Value) -> Result<(), Violation> {
     let bad = || Violation::new("C06:machinery", "bad replay file", json!({}));
     match case["kind"].as_str() {
+        Some("h2-window") => rt::run_real(h2_window_case(case["window"].as_u64().unwrap_or(1500) as u32, case["payload_len"].as_u64().unwrap_or(1000) as usize, case["burst"].as_u64().unwrap_or(4) as u8)).map(|_| ()),
         Some("decode") => {
             let seq: Vec<usize> = case["seq"]
                 .as_array()
